@@ -38,6 +38,9 @@ var blocks = []block{
 	{"ml", "x\ny"},
 	{"uq", "é\"\\<ü>"},
 	{"L70k", long(70 << 10)},
+	// 70 KiB of text whose encoding in the file is several times longer (each of < & > becomes a 6-byte
+	// \u00XX escape, a line feed 2 bytes): limits that hold for the text need not hold for the line
+	{"X70k", "out " + strings.Repeat("<&>\n", (70<<10)/4) + "x"},
 	{"L200k", long(200 << 10)},
 }
 
@@ -580,10 +583,10 @@ func getBounds(quick bool) bounds {
 	b := bounds{quick: quick}
 	afterAlpha := []int{0, 2}
 	if quick {
-		b.nblocks, b.maxCmds, b.maxLong, b.maxSess = 5, 3, 2, 2
+		b.nblocks, b.maxCmds, b.maxLong, b.maxSess = 6, 3, 2, 2
 		b.afterDesc = "every sequence of <= 2 commands over {a, ml}"
 	} else {
-		b.nblocks, b.maxCmds, b.maxLong, b.maxSess = 6, 4, 3, 3
+		b.nblocks, b.maxCmds, b.maxLong, b.maxSess = 7, 4, 3, 3
 		b.afterDesc = "every sequence of <= 2 commands over {a, ml}, plus [L70k]"
 	}
 	vlib.Seqs(len(afterAlpha), 0, 2, func(idx []int) bool {
@@ -737,7 +740,7 @@ func replay(c *vlib.Ctx, w string) {
 func init() {
 	vlib.Register(&vlib.Check{
 		ID: "C29", Engine: "E4",
-		Rule:   "histories = every sequence of 1..n commands over the block alphabet {a, 'a b', two-line, unicode+quote+backslash, 70 KiB line; thorough adds a 200 KiB line} cut in every way into <= s sessions (quick n=3 s=2, thorough n=4 s=3; sequences containing an entry > 64 KiB only up to n-1 commands), written by the real history.New/History.Write; the file is then truncated at every byte offset of the last write (entries >= 4 KiB: thorough the first and last 256 offsets and every 4096-byte boundary +-2; quick the first and last 16 offsets and the first two, last two and 60-68 KiB boundaries +-1) or left complete, one further session appends every sequence of <= 2 commands over {a, two-line} (thorough also the 70 KiB line), and a final session reloads; oracle: reload with consecutive duplicates collapsed = acknowledged commands (with or, if the write was cut, without the cut one); non-trivial = the cut is strictly inside the write, or the history contains a consecutive duplicate or an entry longer than 64 KiB; each violation is labelled with the roles of the lost entries (before = acknowledged before the cut write, last = the completed last write, after1/after2 = first/later entry of the next session; the label is appended to the witness after '#'), and a violating case is listed only when none of its one-step reductions (no crash, previous offset, drop a command, merge sessions, simpler block) violates with the same label",
+		Rule:   "histories = every sequence of 1..n commands over the block alphabet {a, 'a b', two-line, unicode+quote+backslash, 70 KiB line, 70 KiB of '<&>\\n' (about 350 KiB once encoded in the file); thorough adds a 200 KiB line} cut in every way into <= s sessions (quick n=3 s=2, thorough n=4 s=3; sequences containing an entry > 64 KiB only up to n-1 commands), written by the real history.New/History.Write; the file is then truncated at every byte offset of the last write (entries >= 4 KiB: thorough the first and last 256 offsets and every 4096-byte boundary +-2; quick the first and last 16 offsets and the first two, last two and 60-68 KiB boundaries +-1) or left complete, one further session appends every sequence of <= 2 commands over {a, two-line} (thorough also the 70 KiB line), and a final session reloads; oracle: reload with consecutive duplicates collapsed = acknowledged commands (with or, if the write was cut, without the cut one); non-trivial = the cut is strictly inside the write, or the history contains a consecutive duplicate or an entry longer than 64 KiB; each violation is labelled with the roles of the lost entries (before = acknowledged before the cut write, last = the completed last write, after1/after2 = first/later entry of the next session; the label is appended to the witness after '#'), and a violating case is listed only when none of its one-step reductions (no crash, previous offset, drop a command, merge sessions, simpler block) violates with the same label",
 		Run:    run,
 		Replay: replay,
 		Assumptions: []string{
